@@ -151,3 +151,25 @@ package annotateparser
 //@   sweep C01
 //@ end
 
+
+// ---@class NAME [: PARENT {, PARENT}]: every parent is read; a parent equal to the class itself is skipped (it would
+// make the inheritance walk loop) but the rest of the list is still read - the list ends only where the token after a
+// parent, looked up afresh, is not a comma; every other parent is recorded with its location
+//@ func parserClassState
+//@   props C15 C16
+//@   loop 0 exits-early-only-if [parent-list-ends-only-where-no-comma-follows-a-parent] lastresult("LookAheadKind#1") != annotatelexer.ATokenSepComma && hits("LookAheadKind#1") == hits("NextFieldName#1")
+//@   loop 0 invariant [C15,C16] hits("LookAheadKind#1") == hits("NextFieldName#1")
+//@   loop 0 step [every-parent-other-than-the-class-itself-is-recorded] !streq(oneParentName, classState.Name) ==> len(classState.ParentNameList) == prev(len(classState.ParentNameList)) + 1
+//@ end
+
+// ---@field [public|protected|private] NAME TYPE: each of the three scope markers is consumed as a marker (and not read
+// as the field's name) and gives the field its scope; no marker means public
+//@ func parserFieldState
+//@   props C16
+//@   ensures[scope-marker-is-consumed-and-sets-the-scope] typeis(result, "*annotateast.AnnotateFieldState")
+//@        && (lastresult("LookAheadKind#0") == annotatelexer.ATokenKwPrivate ==> hits("NextToken#0") == 1 && as(result, "*annotateast.AnnotateFieldState").FieldScopeType == annotateast.FieldScopePrivate)
+//@        && (lastresult("LookAheadKind#0") == annotatelexer.ATokenKwProtected ==> hits("NextToken#0") == 1 && as(result, "*annotateast.AnnotateFieldState").FieldScopeType == annotateast.FieldScopeProtected)
+//@        && (lastresult("LookAheadKind#0") == annotatelexer.ATokenKwPubic ==> hits("NextToken#0") == 1 && as(result, "*annotateast.AnnotateFieldState").FieldScopeType == annotateast.FieldScopePublic)
+//@        && (lastresult("LookAheadKind#0") != annotatelexer.ATokenKwPrivate && lastresult("LookAheadKind#0") != annotatelexer.ATokenKwProtected && lastresult("LookAheadKind#0") != annotatelexer.ATokenKwPubic
+//@            ==> hits("NextToken#0") == 0 && as(result, "*annotateast.AnnotateFieldState").FieldScopeType == annotateast.FieldScopePublic)
+//@ end
